@@ -558,6 +558,38 @@ func assembledChecks(w *World) {
 		})
 		report(fmt.Sprintf("a certificate for %s assembled from %d votes for it and one vote for its parent", bi.sym, q-1), c, p)
 	}
+	// the same signature bytes, divided differently among the same signers: the whole byte string under the first
+	// signer, nothing under the others. A replica without a cache rejects it; one that has just verified the genuine
+	// certificate must not answer differently.
+	done = 0
+	for _, bi := range w.reg.order {
+		if done >= 4 || w.viol != nil {
+			break
+		}
+		qc := bi.b.QuorumCert()
+		if qc.Signature() == nil {
+			continue
+		}
+		rs := resplitSig(qc.Signature())
+		if rs == nil {
+			continue
+		}
+		done++
+		m := hotstuff.NewQuorumCert(rs, qc.View(), qc.BlockHash())
+		c, p, _ := au.each(func(x *cert.Authority) error {
+			if err := x.VerifyQuorumCert(qc); err != nil {
+				return nil // the genuine certificate does not verify here (e.g. a Byzantine leader's block): nothing to compare
+			}
+			if x.VerifyQuorumCert(m) == nil {
+				return nil
+			}
+			return fmt.Errorf("rejected")
+		})
+		w.probe("resplit-certificate-checked")
+		if c != p {
+			w.violate("C11", "C11/resplit/accept-vs-reject", nil, "a certificate for %s whose signature bytes are divided differently among the same signers: cached:%v uncached:%v right after the genuine certificate was verified", w.reg.sym(qc.BlockHash()), verdictB(c), verdictB(p))
+		}
+	}
 	// timeout certificates: signatures over two different views
 	views := map[hotstuff.View][]part{}
 	var order []hotstuff.View
